@@ -21,3 +21,9 @@ func caseKeyIfContains(cs map[string]J, sub string) string {
 	}
 	return fmt.Sprintf("%x", sha1.Sum(b))
 }
+
+func jsonEqual(a, b J) bool {
+	x, _ := json.Marshal(a)
+	y, _ := json.Marshal(b)
+	return string(x) == string(y)
+}
